@@ -18,7 +18,7 @@ ID = 'C36'
 LEVEL = 'exploration'
 RULE = ('A case is one fork history. sqlite: parent state at the fork in {disconnected, idle pooled connection, open session '
         'after a read, open session with a flushed uncommitted write, open session with an unflushed object, open session '
-        'after commit} x order {child first, parent first} x child script (read, write+commit, db.get_connection, disconnect, '
+        'after commit; grid only: another THREAD of the parent inside a write transaction} x order {child first, parent first} x child script (read, write+commit, db.get_connection, disconnect, '
         'rollback, nested fork with its own script; length 1..5) x parent script after the fork (read, write, commit, '
         'end_session, disconnect; length 0..4); a complete grid of 6x2x6x3 short scripts (quick tier: alternating halves by seed parity) plus hypothesis-drawn longer ones. '
         'pool: op lists over connect/use/release/drop/disconnect/gc with forks nested to depth 2 on the generic Pool and on '
@@ -29,14 +29,18 @@ ASSUMPTIONS = ['real os.fork() on Linux; sqlite3 3.40 file database in rollback-
                'the fake driver objects); commit()/rollback()/close() of python sqlite3 that send nothing (no open transaction) '
                'are judged only by their effect on the parent',
                'the harness serialises the processes (child completely before or after the parent script), so lock conflicts '
-               "only arise from the parent's still open session and are accepted as 'database is locked'",
+               "only arise from the parent's still open session and are accepted as 'database is locked'; the same is accepted for "
+               'ever in a forked process when a connection of the forking process held the write lock at the fork (SQLite keeps '
+               'POSIX locks per process+inode, the inherited connection copy makes the file look reserved to new connections)',
+               'inside a db_session inherited through fork (it can never end in the child) pony caches query results, so exact '
+               'visibility of committed data is demanded only of reads in real new sessions / right after rollback()',
                'generic Pool / OraPool: for socket based drivers ANY call on, or finalisation of, an inherited connection / '
                'session-pool object reaches the server session shared with the parent (libpq / libmysqlclient / OCI documentation), '
                'so every such call is counted as affecting the parent; no real PostgreSQL/MySQL/Oracle driver or server exists here',
                'a hang is never reported as a violation (watchdog => inconclusive) except a provable deadlock: a single-threaded '
                'process blocked in SQLiteProvider.acquire_lock']
-SHARDS = {'quick': 4, 'thorough': 16}
-MIN_EVALS = {'quick': 200, 'thorough': 1500}
+SHARDS = {'quick': 4, 'thorough': 8}
+MIN_EVALS = {'quick': 120, 'thorough': 1500}
 CLASS_FLOORS = {'sqlite': 0.3, 'pool:generic': 0.08, 'pool:oracle': 0.08, 'nontrivial': 0.25}
 
 CHILD_FIRST_OPS = [['read'], ['write'], ['getconn'], ['disconnect', 'read'], ['rollback', 'read', 'write'], [['fork', ['read', 'write']]]]
@@ -164,7 +168,7 @@ def run(ctx):
 
     def t_pool(case):
         evaluate(ctx, case)
-    ctx.run_test(t_pool, dict(case=pool_case), max_examples=ctx.scale(20, 80), name='pool_histories')
+    ctx.run_test(t_pool, dict(case=pool_case), max_examples=ctx.scale(20, 160), name='pool_histories')
     if ctx.violation:
         return
 
@@ -181,7 +185,7 @@ def run(ctx):
 
     def t_sqlite(case):
         evaluate(ctx, case)
-    ctx.run_test(t_sqlite, dict(case=sqlite_case), max_examples=ctx.scale(15, 90), name='sqlite_histories')
+    ctx.run_test(t_sqlite, dict(case=sqlite_case), max_examples=ctx.scale(15, 180), name='sqlite_histories')
 
 
 def replay(case):
